@@ -80,7 +80,10 @@ def r02_2(ctx, layers):
                                 # (fine when the path established that nothing was found so far)
                                 empty_so_far = any(a[0] == "call" and a[1].rsplit("::", 1)[1] in ("is_some", "is_none") and any(c in set(walk(a[2][0])) for c in caps)
                                                    and v == (0 if a[1].endswith("is_some") else 1) for a, v in p.conds)
-                                if not empty_so_far:
+                                # (or that this bucket did return a route: `if r.is_some() { removed = r }`)
+                                found_here = any((a[0] == "call" and a[1].rsplit("::", 1)[1] in ("is_some", "is_none") and a[2] and a[2][0] == e[2] and v == (1 if a[1].endswith("is_some") else 0))
+                                                 or (a[0] == "disc" and a[1] == e[2] and v == "Some") for a, v in p.conds)
+                                if not empty_so_far and not found_here:
                                     over = True
                     r.ob(key + ":kept", not over, g.loc(span_line(t["s"])),
                          "a found route is kept: the captured result is assigned only when this bucket returned one" if not over else "the captured result is overwritten with whatever this bucket returned — `None` from a later bucket erases the removed route")
